@@ -8,6 +8,12 @@ import KafkaVerif.Lemmas.RecordBatchSpec
 namespace KV.Model.RecordReader
 open KV KV.RW KV.Spec.RB
 
+/-- the masks in the Go sources are the Spec's (fails to check when a mask in protocol/record.go changes) -/
+@[simp] theorem libCodecOf_eq (a : Int) : libCodecOf a = codecOf a := by
+  simp only [libCodecOf, codecOf, Gen.RecordConsts.compressionMask]; rfl
+@[simp] theorem libIsControl_eq (a : Int) : libIsControl a = isControl a := by
+  simp only [libIsControl, isControl, Gen.RecordConsts.controlConst]; rfl
+
 theorem libVarBytes_varbytes (b : Option Bytes) (r : Bytes) : libVarBytes (varbytes b ++ r) = some (b, r) := by
   cases b with
   | none => simp [varbytes, libVarBytes, readVarint_varint]
@@ -83,7 +89,8 @@ theorem libReadV2_bytes (crc : Bytes → Nat) (dec : Int → Bytes → Option By
   simp only [hnot, if_false]
   simp only [List.append_assoc] at htake
   rw [htake]
-  simp only [readI32_i32 _ _ h2, readI8_i8 _ _ hm, readU32_u32 _ _ hc, readFrameBody_frameBody f hw, h.payload]
+  simp only [readI32_i32 _ _ h2, readI8_i8 _ _ hm, readU32_u32 _ _ hc, readFrameBody_frameBody f hw, libCodecOf_eq,
+    libIsControl_eq, h.payload]
   have hcnt : ¬ f.count < 0 := by rw [h.count]; omega
   by_cases hcrc : crc (frameBody f) = c'
   · simp [hcrc, hcnt, h.count, libRecords_encRecs]
@@ -180,7 +187,7 @@ theorem libStep_entry (c : Crcs) (h1 : ∀ b, c.ieee b < M32) (h2 : ∀ b, c.cas
         rcases hw.2.1 with h0 | h1'
         · simp [i8_eq, h0] at this; rw [← this]; decide
         · simp [i8_eq, h1'] at this; rw [← this]; decide
-      simp only [encEntry, hb, hne, if_false, hb01, if_true, libReadV1, libReadMsg_encMsg c.ieee h1 m hw rest, hc]
+      simp only [encEntry, hb, hne, if_false, hb01, if_true, libReadV1, libReadMsg_encMsg c.ieee h1 m hw rest, libCodecOf_eq, hc]
 
 theorem libReadSet_encSet (c : Crcs) (h1 : ∀ b, c.ieee b < M32) (h2 : ∀ b, c.castagnoli b < M32)
     (dec : Int → Bytes → Option Bytes) (es : List Entry) (gs : List (Bool × List Rec))
